@@ -14,9 +14,15 @@ import concurrent.futures, hashlib, json, os, random, shutil, subprocess, sys, t
 SYSCALLS = ["pwrite64", "fsync", "fdatasync", "ftruncate", "unlink"]
 
 
-def gen_workload(rng, nops):
+def gen_workload(rng, nops, force_b=False):
     ops, appends = [], []
     for i in range(nops):
+        if force_b and i == 1:
+            ops.append({"kind": "open-b"})
+            continue
+        if force_b and i == max(3, nops // 2):
+            ops.append({"kind": "close-b"})
+            continue
         r = rng.random()
         if r < 0.6 or not appends:
             ops.append({"kind": "append", "type": rng.choice(["T", "order.created", "ü"]),
@@ -34,8 +40,11 @@ def gen_workload(rng, nops):
                 ops.append({"kind": "save", "sub": prev[-1]["sub"], "ack_ix": appends[0] if rng.random() < 0.5 else -1})
             else:
                 ops.append({"kind": "save", "sub": rng.choice(["s1", "s2"]), "ack_ix": rng.choice(appends)})
-        elif r < 0.9:
+        elif r < 0.87:
             ops.append({"kind": "close-reopen"})
+        elif r < 0.93:
+            # a second handle on the same file is opened, and closed again a little later, while the first stays in use
+            ops.append({"kind": "open-b" if not any(o["kind"] == "open-b" for o in ops) or ops[-1]["kind"] == "close-b" else "close-b"})
         else:
             ops.append({"kind": "read"})
     return ops
@@ -237,7 +246,9 @@ def main(pid, tier, chk):
         rng = random.Random(seed * 7919 + 13)
         cases, dry = [], {}
         pool = concurrent.futures.ThreadPoolExecutor(max_workers=chk.NCPU)
-        workloads = [gen_workload(random.Random(seed * 100003 + w), rng.randint(3, 14) if tier == "quick" else rng.randint(3, 40)) for w in range(n_workloads)]
+        # (every fourth workload has, for certain, a second handle that is opened early and closed cleanly while the
+        # first handle goes on appending and saving)
+        workloads = [gen_workload(random.Random(seed * 100003 + w), (rng.randint(3, 14) if tier == "quick" else rng.randint(3, 40)) + (4 if w % 4 == 3 else 0), force_b=(w % 4 == 3)) for w in range(n_workloads)]
         # dry runs: syscall shape of every workload (twice: the shape must be stable, else crash points do not replay)
         futs = {w: (pool.submit(execute_case, child, workdir, Case(w, [workloads[w]], [None])),
                     pool.submit(execute_case, child, workdir, Case(w, [workloads[w]], [None]))) for w in range(n_workloads)}
